@@ -217,6 +217,16 @@ def layout_cases(tier):
         for reader in ("traps_dict", "traps_dict-twice", "coords", "sorted_coords", "trap_coordinates"):
             for edit in ("scale", "move-one", "delete", "zero"):
                 out.append(("layoutalias", geom, reader, edit))
+    # MAPPABLE registers: the register a sequence ends up with is chosen at build time - the device's limits apply to it all the same
+    for fill, ntraps in ((0.5, 6), (1.0, 6), (0.5, 20), (1.0, 7), (0.45, 20)):
+        cap = int(Fraction(str(fill)) * ntraps)
+        for ndecl in sorted({cap, cap - 1}):
+            for nmap in sorted({1, ndecl - 1, ndecl}):
+                if 1 <= nmap <= ndecl:
+                    for maxatoms in sorted({nmap - 1, nmap, nmap + 1, None}, key=lambda x: (x is None, x)):
+                        if maxatoms is None or maxatoms >= 1:
+                            for which in ("first", "last"):
+                                out.append(("mappable", fill, ntraps, ndecl, nmap, maxatoms, which))
     for dd in (D - E, D, D + E):
         out.append(("trapgeom", dd))
     for rr in (R - E, R, R + E):
@@ -290,6 +300,45 @@ def check_layout(case):
                         out.append((f"C12:automatic-layout-rejected:register-with-a-foreign-layout:{fk}:{type(e).__name__}",
                                     f"{natoms} atoms, max filling {fill}, traps [{mint},{maxt}]: {e}"[:250]))
             return out + [("@layout", "")]
+        if case[0] == "mappable":
+            from pulser import Sequence
+            from pulser.register.mappable_reg import MappableRegister
+
+            _, fill, ntraps, ndecl, nmap, maxatoms, which = case
+            dev = make_device(dict(dimensions=2, max_atom_num=maxatoms, min_atom_distance=D, max_radial_distance=None),
+                              max_layout_filling=fill, min_layout_traps=1, max_layout_traps=None)
+            L = RegisterLayout([(5.0 * i, 0.0) for i in range(ntraps)])
+            ids = [f"q{i}" for i in range(ndecl)]
+            try:
+                seq = Sequence(MappableRegister(L, *ids), dev)
+            except Exception as e:  # noqa: BLE001
+                if Fraction(ndecl, ntraps) <= Fraction(str(fill)) and (maxatoms is None or ndecl <= maxatoms):
+                    return [(f"C12:fitting-mappable-register-refused:{type(e).__name__}", f"{ndecl} ids on {ntraps} traps, filling {fill}, max atoms {maxatoms}: {e}"[:250])]
+                return [("@mappable-creation-refused", "")]
+            seq.declare_channel("g", "rydberg_global")
+            traps = list(range(ntraps)) if which == "first" else list(range(ntraps - 1, -1, -1))
+            mapping = {ids[i]: traps[i] for i in range(nmap)}
+            want = (maxatoms is None or nmap <= maxatoms) and Fraction(nmap, ntraps) <= Fraction(str(fill))
+            try:
+                built = seq.build(qubits=mapping)
+                ok, err = True, None
+            except Exception as e:  # noqa: BLE001
+                ok, err = False, e
+            if want and not ok:
+                out.append((f"C12:fitting-mappable-build-refused:{type(err).__name__}", f"{nmap} of {ndecl} ids mapped on {ntraps} traps, filling {fill}, max atoms {maxatoms}: {err}"[:250]))
+            elif ok and not want:
+                why = "atoms" if (maxatoms is not None and nmap > maxatoms) else "filling"
+                out.append((f"C12:misfit-mappable-build-accepted:{why}", f"build() gave a sequence with {len(built.register.qubit_ids)} atoms (max {maxatoms}) on {ntraps} traps, "
+                            f"max filling {fill}"))
+            elif ok:
+                # what was built is a register the device accepts, holding exactly the mapped ids on the chosen traps
+                try:
+                    dev.validate_register(built.register)
+                except Exception as e:  # noqa: BLE001
+                    out.append((f"C12:built-register-rejected-by-device:{type(e).__name__}", str(e)[:200]))
+                if set(built.register.qubit_ids) != set(mapping):
+                    out.append(("C12:built-register-ids", f"{sorted(built.register.qubit_ids)} vs {sorted(mapping)}"))
+            return out + [("@mappable", "")]
         if case[0] == "fillmax":
             from pulser import Sequence
 
@@ -477,7 +526,7 @@ def worker(case):
     k = case[0]
     if k == "reg":
         return check_register(case[1:])
-    if k in ("fill", "fillmax", "trapgeom", "trapradius", "layoutalias"):
+    if k in ("fill", "fillmax", "trapgeom", "trapradius", "layoutalias", "mappable"):
         return check_layout(case)
     return check_constructor(case)
 
